@@ -19,7 +19,9 @@
  *        flags: R report, E nonexistent file, N no exit_cb, p pipe2 fails,
  *               f fork fails, s<k> k-th socketpair fails  ("-" = none)
  *   G<n> release gate n      A<h> wait until child h is a zombie
- *   R uv_run(NOWAIT)         D uv_run(DEFAULT)     T<n> 1 ms timer releasing gate n
+ *   R uv_run(NOWAIT)         T<n> 1 ms timer releasing gate n
+ *   D uv_run(ONCE) until every child that is on its way out (no gate, gate released or
+ *     due, killed) has been reported or closed
  *   W uv__wait_children()    K<h>:<sig> uv_process_kill   Z<h> reap h behind libuv's back
  *   C<h> uv_close(process)   I<n> the next waitpid call first fails n times with EINTR
  */
@@ -128,6 +130,7 @@ static int spawned[MAXP];      /* fork happened */
 static int closed[MAXP];
 static uv_pipe_t* pipes_h[MAXP][MAXSLOT];
 static int gate_open[32];
+static int gate_of[MAXP], gate_due[32], killed_h[MAXP], stolen_h[MAXP];
 static uv_timer_t timers[32];
 static int ntimers;
 static int cur_spawn = -1;     /* child being spawned (for the fork wrapper) */
@@ -264,6 +267,7 @@ static void do_spawn(char* tok) {
   opt.exit_cb = nocb ? NULL : exit_cb;
   procs[h] = calloc(1, sizeof(uv_process_t));
   procs[h]->data = (void*) (intptr_t) h;
+  gate_of[h] = gate;
   snapshot("P", h);
   cur_spawn = h;
   r = uv_spawn(&loop, procs[h], &opt);
@@ -379,7 +383,7 @@ static void run_case(char* line) {
       break;
     }
     case 'S': do_spawn(tok); break;
-    case 'G': release_gate(atoi(tok + 1)); break;
+    case 'G': a = atoi(tok + 1); if (a >= 0 && a < 32) { gate_due[a] = 1; release_gate(a); } break;
     case 'A': {
       siginfo_t si;
       int h = atoi(tok + 1), r;
@@ -389,11 +393,23 @@ static void run_case(char* line) {
       break;
     }
     case 'R': uv_run(&loop, UV_RUN_NOWAIT); break;
-    case 'D': uv_run(&loop, UV_RUN_DEFAULT); break;
+    case 'D':
+      /* block in the loop until every child that is on its way out was dealt with */
+      for (;;) {
+        int h, waiting = 0;
+        for (h = 0; h < MAXP; h++)
+          if (spawned[h] && !closed[h] && !stolen_h[h] && procs[h] && uv_is_active((uv_handle_t*) procs[h]) &&
+              (gate_of[h] < 0 || gate_due[gate_of[h]] || killed_h[h]))
+            waiting = 1;
+        if (!waiting) break;
+        uv_run(&loop, UV_RUN_ONCE);
+      }
+      break;
     case 'T':
       if (ntimers < 32) {
         uv_timer_init(&loop, &timers[ntimers]);
         timers[ntimers].data = (void*) (intptr_t) atoi(tok + 1);
+        if (atoi(tok + 1) >= 0 && atoi(tok + 1) < 32) gate_due[atoi(tok + 1)] = 1;
         uv_timer_start(&timers[ntimers], timer_cb, 1, 0);
         ntimers++;
       }
@@ -401,13 +417,14 @@ static void run_case(char* line) {
     case 'W': uv__wait_children(&loop); break;
     case 'K':
       if (sscanf(tok + 1, "%d:%d", &a, &b) == 2 && a >= 0 && a < MAXP && procs[a])
-        OUT("k%d:%d ", a, uv_process_kill(procs[a], b));
+        { killed_h[a] = 1; OUT("k%d:%d ", a, uv_process_kill(procs[a], b)); }
       break;
     case 'Z': {
       int h = atoi(tok + 1), st;
       if (h >= 0 && h < MAXP && spawned[h]) {
         pid_t r;
         do r = __real_waitpid(pids[h], &st, 0); while (r == -1 && errno == EINTR);
+        stolen_h[h] = 1;
       }
       break;
     }
